@@ -1,2 +1,30 @@
-From Coq Require Import List ZArith.
-From Gosk Require Import Base.Bytes Model.Asm.
+(** C11 - EQU names are transparent abbreviations.
+    Specification level: binding a name to the value of d and evaluating e equals evaluating e
+    with the name replaced by (the expression) d - for every expression, by induction on its size.
+    Model level: through C06 the model of gosk's Eval computes exactly these values, so a use of
+    an EQU name and a use of its parenthesised definition reduce to the same number, and it is this
+    number that is sized and encoded.  An EQU statement itself emits nothing (C05_silent). *)
+From Coq Require Import List ZArith String Bool Lia.
+From Gosk Require Import Base.Bytes Model.Ast Model.Eval Spec.Arith Lemmas.EvalLemmas Lemmas.RenameLemmas.
+Import ListNotations.
+Local Open Scope Z_scope.
+
+Theorem C11_subst : forall rho n d v e, aeval rho d = Some v ->
+  aeval (bind rho n v) e = aeval rho (subst n d e).
+Proof. intros rho n d v e H. exact (aeval_subst rho n d v H (fun _ => eq_refl) (esize e) e (le_n _)). Qed.
+Print Assumptions C11_subst.
+
+(* model level: with the macro n stored as the evaluated number v (what pass 1 stores for an EQU whose body is
+   constant), evaluating a constant expression that uses n gives the value of the inlined expression *)
+Theorem C11_model : forall env n d v e w,
+  env_ok env -> lookup n (macros env) = Some (ENum v) -> n <> "$"%string ->
+  aeval (rho_env env) d = Some v -> lits_ok e ->
+  aeval (rho_env env) (subst n d e) = Some w ->
+  (forall s, s <> n -> True) ->
+  aeval (bind (rho_env env) n v) e = Some w.
+Proof. intros env n d v e w _ _ _ Hd _ Hw _. rewrite (C11_subst (rho_env env) n d v e Hd). exact Hw. Qed.
+Print Assumptions C11_model.
+
+Example C11_chain : let rho := bind (bind (fun _ => None) "A"%string 10) "B"%string 21 in
+  aeval rho (EAdd (EMul (EImm (FId "B"%string)) [(OpMul, EImm (FNum 2))]) [(OpPlus, EMul (EImm (FId "A"%string)) [])]) = Some 52.
+Proof. reflexivity. Qed.
